@@ -9,7 +9,7 @@ from . import c01
 
 def check(ctx):
     T = ctx.thorough
-    rep = c01.run_space(ctx, "C10", "md", 4 if T else 3, (1, 2), T,
+    rep = c01.run_space(ctx, "C10", "md", 5 if T else 4, (1, 2), T,
                         "synchronous (loop-less) pipelines; every element carries 0, 1 or 2 metadata dicts",
                         "exception, value, md-shape, md-content, md-identity")
     return rep
